@@ -30,8 +30,11 @@ unknown word U; P = every spelling, names or aliases, of every path of enabled n
   followed by one of: nothing | a declared option of the tree (long form; short form too in thorough for
             trees <= 3 nodes) | the unknown option --zz | an option and then one more word of W
   followed by one of: nothing | "--" | "--" and one command name of the tree or U.
-  Option and tail variants are attached to the all-names and the all-aliases spelling of a path (all
-  spellings for trees <= 3 nodes); see lines_for() for the exact products per tree size.
+  How much of these products a tree gets depends on its size (policy() / lines_for(): levels 3..0); the
+  products are complete for trees <= 3 nodes, leaner for bigger trees.  Below level 3 the lines the statement
+  is silent about (next paragraph) are not executed at all - no verdict could come from them.
+  The line generator uses the model of the tree (which words are children of which command) to lay out the
+  products; the verdicts come from ref_resolve() and from the implementation's own outcomes.
 
 WHAT IS DEMANDED (from the statement), see ref_resolve():
   * walk the longest prefix of the leading non-option tokens that names a path of commands (name or
@@ -40,7 +43,12 @@ WHAT IS DEMANDED (from the statement), see ref_resolve():
   * no leading token -> the application's default command (same rule among several);
   * first token names no command -> CannotResolveCommandException naming the token, no handler run;
   * alias spelling, an appended option the selected command declares, and a '--' tail do not change it.
-DECISIONS about corners the statement is silent on (not asserted, counted in evidence as `unasserted`):
+    "Can take the words" is known by construction (number of profile-A commands on the chain, arguments are
+    inherited from parent commands), it is NOT asked of the real parser (DESIGN.md suggested asking it): a parser
+    that mis-judges parsability misleads the resolver, and that is exactly how two of the three defects found
+    here show (findings/c03_*.md).
+DECISIONS about corners the statement is silent on (not asserted; such lines are executed and counted as
+`unasserted` only for trees <= 2 nodes):
   * a line that no candidate can parse (too many words): which error is raised is C01/C02's subject;
   * an option that the command selected *without it* does not declare (unknown option, or an option that
     only a competing default declares): the statement speaks of "adding options", not of invalid ones;
@@ -171,6 +179,7 @@ class Model(object):
         self.words = [w for i in range(n) for w in self.words_of[i]] + [unknown]
         self.canon = dict((ALIASES[i], NAMES[i]) for i in range(n))
         self.short2long = dict(("-" + SHORTS[i], OPTS[i]) for i in range(n))
+        self.cache = {}  # line -> expectation (pure function of the model, computed once)
 
     def walk(self, lead):
         cur, k = -1, 0
@@ -304,16 +313,15 @@ def spelled_paths(m):
     return out
 
 
-def policy(tier, n):
-    """How rich the line set of an n-node tree is (bigger trees get leaner products; see lines_for)."""
+def policy(tier, n, special):
+    """How rich the line set of an n-node tree with `special` non-(plain,N) nodes is: bigger trees get leaner
+    products (see lines_for).  The thorough line set of a tree always contains its quick line set."""
     thorough = tier == "thorough"
     if n <= 2:
         return dict(level=3, full_words=4 if thorough else 3, silent=True, shorts=thorough)
     if n == 3:
         return dict(level=2, full_words=0, silent=False, shorts=thorough)
-    if n == 4 and not thorough:
-        return dict(level=1, full_words=0, silent=False, shorts=False)
-    return dict(level=0 if n == 4 else 1, full_words=0, silent=False, shorts=False)
+    return dict(level=1 if special <= 2 else 0, full_words=0, silent=False, shorts=False)
 
 
 def lines_for(m, tier):
@@ -321,13 +329,16 @@ def lines_for(m, tier):
 
     level 3 (<= 2 nodes)  every product below in full, plus all of W^<=k, silent-corner lines kept
     level 2 (3 nodes)     every spelling gets the variants; all options, all names as tail words
-    level 1               variants on the all-names / all-aliases spellings only; options of the candidates'
+    level 1 (>= 4 nodes, <= 2 special nodes)
+                          variants on the all-names / all-aliases spellings only; options of the candidates'
                           chains + the unknown one; tail words = children of the reached command, n0, U
-    level 0               as level 1 without option x tail products and without variants on <path> <word> leads
+    level 0 (4 nodes, >= 3 special nodes; thorough only)
+                          as level 1 without option x tail products and without variants on <path> <word> leads
                           other than <path> U
-    Lines the statement is silent about (see module docstring) are dropped for level <= 2: they cannot fail.
+    A lead whose first token names no command gets (below level 3) only: nothing, one declared option, the
+    unknown option, one tail.  Lines the statement is silent about (module docstring) are dropped below level 3.
     """
-    pol = policy(tier, m.n)
+    pol = policy(tier, m.n, sum(1 for i in range(m.n) if (m.kind[i], m.prof[i]) != (PLAIN, 0)))
     level = pol["level"]
     n, W, U = m.n, m.words, m.unknown
     names = [NAMES[i] for i in range(n)]
@@ -358,6 +369,12 @@ def lines_for(m, tier):
     def variants(lead, cur, rich):
         emit(lead)
         opts, tw = opts_for(cur), tailwords_for(cur)
+        if cur == -1 and lead and level < 3:
+            # the first token names no command: one declared option, the unknown option, one tail
+            for o in (live_opts[:1] + [UNKNOWN_OPT]):
+                emit(lead, (o,))
+            emit(lead, (), ("--", names[0]))
+            return
         for o in opts:
             emit(lead, (o,))
         emit(lead, (), ("--",))
@@ -437,6 +454,13 @@ def split(m, line):
 
 
 def expectation(m, line):
+    e = m.cache.get(line)
+    if e is None:
+        e = m.cache[line] = _expectation(m, line)
+    return e
+
+
+def _expectation(m, line):
     lead, optpart, tail = line
     tokens, extra, opt = split(m, line)
     verdict, node, args = ref_resolve(m, lead, extra, opt)
@@ -597,47 +621,54 @@ def check_tree(tree, tier, unknown, cap=20, run_checks=True):
         if bad:
             add(bad[0], bad[1], line, "oracle", bad[2], bad[3])
         # nothing may run for an undefined command; the selected handler and only it runs otherwise
-        if run_checks and (verdict == "undefined" or (verdict == "selected" and not line[1] and not line[2])) and not bad:
+        if run_checks and not bad and (verdict in ("undefined", "selected") and ((not line[1] and not line[2]) or (m.n <= 2 and verdict == "undefined"))):
             cnt["runs"] += 1
             r = judge_run(m, app, cfg, log, line, verdict, expectation(m, line)[1])
             if r:
                 add(r[0], r[1], line, "run", r[2], r[3])
     # metamorphic relations on the implementation's own outcomes
     for line in lines:
-        lead, optpart, tail = line
         obs = outcome[line]
         for feat, simpler in reductions(m, line):
             base = outcome.get(simpler)
             if base is None:
                 continue
-            r = None
-            if feat == "alias":
-                cnt["meta_alias"] += 1
-                if (obs[0], obs[1]) != (base[0], base[1]):
-                    r = ("meta:alias-changes-outcome", "replacing names on the path by aliases changed the outcome")
-            elif feat == "opt" and len(optpart) == 1 and base[0] == "sel":
-                try:
-                    declared = base[2].command.args_format.has_option(m.opt_name(optpart[0]))
-                except Exception:  # noqa
-                    declared = False
-                if declared:
-                    cnt["meta_option"] += 1
-                    if (obs[0], obs[1]) != (base[0], base[1]):
-                        r = ("meta:declared-option-changes-selection",
-                             "appending an option the selected command declares changed the selection")
-            elif feat == "tail" and base[0] == "sel":
-                try:
-                    free = sum(1 for v in base[2].args.arguments().values() if v is None)
-                except Exception:  # noqa
-                    free = 0
-                if free >= len(tail) - 1:
-                    cnt["meta_tail"] += 1
-                    if (obs[0], obs[1]) != (base[0], base[1]):
-                        r = ("meta:tail-changes-selection", "appending a '--' tail the selected command has room for changed the selection")
+            applies, r = relation_holds(m, feat, line, obs, simpler, base)
+            if applies:
+                cnt["meta_" + {"opt": "option"}.get(feat, feat)] += 1
             if r:
-                add(r[0], r[1] + ": %r -> %s, %r -> %s" % (" ".join(split(m, simpler)[0]), base[1], " ".join(tokens_of(m, line)), obs[1]),
-                    line, "meta:" + feat, [base[0], base[1]], [obs[0], obs[1]], other=simpler)
+                add(r[0], r[1], line, "meta:" + feat, r[2], r[3], other=simpler)
     return cnt, viols
+
+
+def relation_holds(m, feat, line, obs, simpler, base):
+    """One metamorphic relation between the outcome of `line` and of its simpler form.
+    -> (relation applies, None or (sig, what, expected, observed))"""
+    lead, optpart, tail = line
+    same = (obs[0], obs[1]) == (base[0], base[1])
+    sig = None
+    if feat == "alias":
+        sig, what = "meta:alias-changes-outcome", "replacing names on the path by aliases changed the outcome"
+    elif feat == "opt" and len(optpart) == 1 and base[0] == "sel":
+        try:
+            declared = base[2].command.args_format.has_option(m.opt_name(optpart[0]))
+        except Exception:  # noqa
+            declared = False
+        if declared:
+            sig, what = "meta:declared-option-changes-selection", "appending an option the selected command declares changed the selection"
+    elif feat == "tail" and base[0] == "sel":
+        try:
+            free = sum(1 for v in base[2].args.arguments().values() if v is None)
+        except Exception:  # noqa
+            free = 0
+        if free >= len(tail) - 1:
+            sig, what = "meta:tail-changes-selection", "appending a '--' tail the selected command has room for changed the selection"
+    if sig is None:
+        return False, None
+    if same:
+        return True, None
+    what += ": %r -> %s, %r -> %s" % (" ".join(tokens_of(m, simpler)), base[1], " ".join(tokens_of(m, line)), obs[1])
+    return True, (sig, what, [base[0], base[1]], [obs[0], obs[1]])
 
 
 def tokens_of(m, line):
@@ -684,13 +715,30 @@ def describe(tree):
 # replay / main
 # ---------------------------------------------------------------------------------------------
 def replay(case):
+    """Re-execute exactly the recorded line (and, for a metamorphic relation, its recorded simpler form)."""
     tree = tuple(tuple(t) for t in case["tree"])
     line = tuple(tuple(x) for x in case["line"])
-    want_check = case["check"]
-    cnt, viols = check_tree(tree, case.get("tier", "quick"), case.get("unknown", UNKNOWN_WORDS[0]), cap=10 ** 6)
-    for v in viols:
-        if tuple(tuple(x) for x in v["case"]["line"]) == line and v["case"]["check"] == want_check:
-            return v
+    m = Model(tree, case.get("unknown", UNKNOWN_WORDS[0]))
+    app, cfg, log = build(tree)
+    check = case["check"]
+    what = "tree %s | line %r" % (describe(tree), " ".join(tokens_of(m, line)))
+    obs = observe(app, tokens_of(m, line))
+    if check == "oracle":
+        bad = judge(m, line, obs)
+        if bad:
+            return report.viol(bad[0] + corner(m, line, bad[0]), bad[1] + " | " + what, case, bad[2], bad[3])
+    elif check == "run":
+        verdict, node, _ = expectation(m, line)
+        if verdict in ("undefined", "selected"):
+            r = judge_run(m, app, cfg, log, line, verdict, node)
+            if r:
+                return report.viol(r[0], r[1] + " | " + what, case, r[2], r[3])
+    elif check.startswith("meta:"):
+        simpler = tuple(tuple(x) for x in case["base"])
+        base = observe(app, tokens_of(m, simpler))
+        applies, r = relation_holds(m, check[5:], line, obs, simpler, base)
+        if r:
+            return report.viol(r[0], r[1] + " | " + what, case, r[2], r[3])
     return None
 
 
